@@ -1761,6 +1761,7 @@ func GetRouteDistinguisher(data []byte) RouteDistinguisherInterface {
 		DefaultRouteDistinguisher: DefaultRouteDistinguisher{
 			Type: typ,
 		},
+		Value: append([]byte(nil), data[2:8]...),
 	}
 	return rd
 }
